@@ -84,13 +84,13 @@ def dist_lp_2d(ctx):
 @case("C09", "dist.plane.point.3d", names("e", 4) + names("p", 4), mode="real",
       functions=FUN + ["geometer.point.SubspaceTensor.project", "geometer.point.PlaneTensor.perpendicular"], timeout=180, max_paths=200, explore_time=900,
       assumptions=["3D point-point distance goes through orth() (SVD leaf): here replaced by its contract 'orthonormal basis of the span' - see dist.point.point.3d"],
-      tier="thorough")
+      tier="experimental")
 def dist_ep_3d(ctx):
     geometer, go = _g()
     e, p = ctx.vec("e", 4), ctx.vec("p", 4)
     ctx.assume(ctx.neg(ctx.zero(p[3])))
     ctx.assume(ctx.neg(ctx.conj([ctx.zero(e[0]), ctx.zero(e[1]), ctx.zero(e[2])])))
-    with ctx.stubs():
+    with ctx.stubs(orth=True):
         d = go.dist(geometer.Plane(e), geometer.Point(p))
     ep = dot(tolist(e), tolist(p))
     nn = e[0] * e[0] + e[1] * e[1] + e[2] * e[2]
@@ -217,3 +217,17 @@ def dist_3d_lattice(ctx):
         got = abs(float(np.real(angle(e1, e2))))
         ok = min(abs(got - want), abs(got - (_m.pi - want))) < 1e-6
         ctx.ensure("angle-3d:two-planes", ok, witness=dict(n1=u, n2=v, got=got, want=want))
+
+
+@case("C09", "dist.point.point.3d", names("p", 3) + names("q", 3), mode="real", functions=FUN, timeout=240, max_paths=64, spare=40, xcheck=False,
+      assumptions=["geometer.utils.math.orth (SVD leaf) replaced by its relational contract: orthonormal columns spanning the range (contracts/stubs.py orth_stub); "
+                   "the SVD itself is not verified"])
+def dist_pp_3d(ctx):
+    """3D point-point distance through the orthonormal-basis reduction, for all finite points (affine coordinates)"""
+    geometer, go = _g()
+    p, q = ctx.vec("p", 3), ctx.vec("q", 3)
+    ctx.assume(ctx.neg(ctx.conj([ctx.zero(p[i] - q[i]) for i in range(3)])))
+    with ctx.stubs(orth=True):
+        d = go.dist(geometer.Point(p[0], p[1], p[2]), geometer.Point(q[0], q[1], q[2]))
+    want = sum((p[i] - q[i]) ** 2 for i in range(3))
+    ctx.ensure("dist^2==cartesian", ctx.zero(_sq(ctx, d) - want, scale=None if ctx.symbolic else 1 + abs(want)))
